@@ -239,10 +239,13 @@ CLAIMS = {
         text="Proof for all Py_ssize_t arguments that __pyx_memoryview_slice_memviewslice (the one-dimension index/slice normaliser "
              "behind both a[i:j:k] on typed memoryviews and memoryview.__getitem__), taken from the C the working-tree compiler "
              "generates, yields exactly CPython's slice.indices()/len(range()) extent, stride*step, the adjusted start offset, "
-             "IndexError for out-of-range indices and ValueError for a zero step, leaving *dst untouched on errors. Kernel: this "
-             "function only, direct (non-indirect) dimensions.",
+             "IndexError for out-of-range indices and ValueError for a zero step, leaving *dst untouched on errors; and that _unellipsify_index_tuple (the tuple-index normaliser of the memoryview object, cut "
+             "mechanically out of MemoryView.pyx on every run, three loop invariants) returns exactly ndim entries and accepts no tuple "
+             "naming more dimensions than the view has (IndexError / TypeError otherwise). Kernel: these two "
+             "functions, direct (non-indirect) dimensions.",
         note="Trusted: dv C front end + clang typing, z3, the slice.indices transcription (validated natively each run), CPython API "
-             "stubs for the error path. Unverified: _unellipsify, the per-dimension driver loop, compile-time generate_buffer_slice_code, "
+             "stubs for the error path; for the .pyx function: the extraction drops the C types of parameters and locals (integers are mathematical), "
+             "items are opaque identities, isinstance / PyIndex_Check uninterpreted. Unverified: _unellipsify (the non-tuple wrapper), the per-dimension driver loop (memview_slice),  compile-time generate_buffer_slice_code, "
              "PIL-style indirect dimensions. Value obligations assume absence of UB, which is reported under C36.",
         ref="4 C16"),
     "C36": dict(
